@@ -89,6 +89,27 @@ fn step(lang: Lang, multi: bool, loc: &str, version: &[(&'static str, String)], 
             sc.write(p, src.as_bytes());
         }
     }
+    // as after a real run, the previous output is newer than every source file and directory (a make-style "up to date"
+    // shortcut would see exactly that)
+    {
+        fn age(p: &std::path::Path, t: std::time::SystemTime) {
+            if let Ok(rd) = std::fs::read_dir(p) {
+                for e in rd.flatten() {
+                    let q = e.path();
+                    if q.is_dir() && !q.is_symlink() {
+                        age(&q, t);
+                    }
+                    if let Ok(f) = std::fs::File::open(&q) {
+                        let _ = f.set_modified(t);
+                    }
+                }
+            }
+            if let Ok(f) = std::fs::File::open(p) {
+                let _ = f.set_modified(t);
+            }
+        }
+        age(&sc.path("ws"), old_time() - std::time::Duration::from_secs(86_400));
+    }
     let linked = loc == "through-symlink";
     if linked && multi {
         sc.mkdir("real_out");
